@@ -5,6 +5,7 @@ Builds corpus/INDEX.json (read by the thorough-tier corpus stage) from the obser
   corpus/Cnn-*.diff        breaking: fires = Cnn plus every other check observed firing (cross detection)
   corpus/regress-Dk-*      reverse of a fix: fires = REGRESS[Dk] plus observed
   corpus/benign-*          behaviour preserving: silent = all twenty checks
+  corpus/unresolved-*      behaviour preserving, known false alarms: fires = the checks observed firing, silent = the rest
   seeded/Cnn-vk/patch.diff sub-agent change: fires = what was observed
 It also refreshes checks_fired in seeded/*/meta.json. Prints what contradicts the intent; never edits checks."""
 import sys,json,re,os,glob
@@ -39,7 +40,12 @@ for f in sorted(glob.glob(V+'/corpus/*.diff')):
     b=os.path.basename(f); key='corpus/'+b; o=obs.get(key)
     if isinstance(o,str): problems.append('%s: %s'%(key,o)); continue
     if o is None: problems.append('%s: not in matrix'%key); o=[]
-    if b.startswith('benign-'):
+    if b.startswith('unresolved-'):
+        # behaviour preserving, but some checks still raise a false alarm on it (DESIGN §13.2): those are listed
+        # under fires (kind "unresolved"), every other check must stay silent
+        if not o: problems.append('%s: no longer alarms (rename to benign-)'%key)
+        entry(key,'unresolved',o,[p for p in ALL if p not in o])
+    elif b.startswith('benign-'):
         if o: problems.append('%s: ALARM from %s'%(key,o))
         m=re.search(r'(C\d\d)',b)
         silent=ALL  # every check must stay quiet on every behaviour-preserving variant (own property: m, past false alarms: hist)
